@@ -630,7 +630,8 @@ func (sc *specCtx) resolve(name string) *Term {
 							_ = id
 						}
 						if obj := x.Object(); obj != nil && obj.Name() == name {
-							if _, isVar := obj.(*types.Var); isVar {
+							// a struct field is a *types.Var too: `n.flag |= x` must not shadow a local called flag
+							if v, isVar := obj.(*types.Var); isVar && !v.IsField() {
 								cand = x.X
 							}
 						}
